@@ -124,7 +124,7 @@ def run_k(run, tier, seed, drv):
         return {"broken": [("harness:c11", err)], "violations": []}
     if tier == "quick":
         args = ["--seed", seed, "--samples", sdir, "--max-samples", 48, "--trunc", 10, "--fields", 12, "--bomb", "40,80,128,256,512,800,1200", "--names", "200:2000,6000:150000", "--cores", 1600, "--limit-ms", 20000,
-                "--sweep-budget", 150000, "--sweep-per-dir", 16, "--sweep-small", 2100]
+                "--sweep-budget", 200000, "--sweep-per-dir", 16, "--sweep-small", 2100]
     else:
         args = ["--seed", seed, "--samples", sdir, "--max-samples", 400, "--max-size", 4000000, "--trunc", 64, "--fields", 64, "--bomb", "40,80,101,102,128,160,256,320,512,800,1200,4000", "--names", "200:2000,3000:80000,6000:150000,12000:300000", "--cores", 40000, "--limit-ms", 30000,
                 "--sweep-budget", 100000000, "--sweep-per-dir", 64, "--sweep-small", 6000]
